@@ -21,6 +21,10 @@ import typing
 import icontract
 LOG = []
 FCOUNT = {"n": 0}
+class myprop(property):
+    """a sub-class of property with behaviour of its own"""
+    def tag(self):
+        return "tagged"
 class Boom(Exception): pass
 BOOM = Boom("from body")
 RES = {"mode": "ret"}
@@ -319,6 +323,9 @@ def render_class(style, inv, child, dbc, contracts):
     bs = "({})".format(base) if base else ""
     members = ("    def _get_q(self):\n        \"\"\"getter doc\"\"\"\n        return 8\n    def _set_w(self, value):\n        pass\n"
                "    q = property(_get_q, None, None, 'the user doc of q')\n    w2 = property(fset=_set_w, doc='write-only doc')\n"
+               "    sp = myprop(_get_q, doc='doc of the property sub-class')\n"
+               + ("    q2 = property(icontract.ensure(lambda result: True)(_get_q), doc='explicit q2 doc')\n" if contracts and dbc else
+                  "    q2 = property(_get_q, doc='explicit q2 doc')\n") +
                "    def pub(self, x):\n        return ('pub', x)\n    @property\n    def p(self):\n        \"\"\"doc of p\"\"\"\n        return 7\n"
                "    @staticmethod\n    def sm(x):\n        return ('sm', x)\n    @classmethod\n    def cm(cls, x):\n        return (cls.__name__, x)\n")
     if style == "namedtuple":
@@ -361,6 +368,7 @@ def render_class(style, inv, child, dbc, contracts):
         w.append("class Child({}):\n".format(cb))
         if style == "slots":
             w.append("    __slots__ = ('z',)\n")
+
         if child.endswith("noinit"):
             w.append("    def extra(self):\n        return 'extra'\n")
         elif child.endswith("init_args"):
@@ -383,6 +391,9 @@ def render_class(style, inv, child, dbc, contracts):
                 return None
             # the constructor comes from a mix-in listed before Root
             w[-1] = "class Mixin:\n    def __init__(self, z):\n        self.v = 1\n        self.z = z\nclass Child(Mixin, Root):\n    pass\n"
+        if not child.endswith("grandchild"):
+            # the child re-defines q2 (explicit doc, a property sub-class): with a DBC base the meta-class re-creates it to add the inherited contracts
+            w.append("    q2 = myprop(lambda self: 9, doc='child q2 doc')\n")
     return "".join(w)
 
 
@@ -443,6 +454,10 @@ def class_script(ns, style, child):
     rec("doc_p", lambda: Root.p.__doc__)
     rec("doc_q", lambda: Root.q.__doc__)
     rec("doc_w2", lambda: Root.w2.__doc__)
+    rec("sp", lambda: (type(inspect.getattr_static(Root, "sp")).__name__, inspect.getattr_static(Root, "sp").tag(), Root.sp.__doc__))
+    rec("doc_q2", lambda: Root.q2.__doc__)
+    if child and "Child" in ns:
+        rec("child_q2", lambda: (type(inspect.getattr_static(ns["Child"], "q2")).__name__, ns["Child"].q2.__doc__))
     if child and child.endswith("grandchild"):
         rec("GrandChild(3)", lambda: (ns["GrandChild"](3).z, ns["GrandChild"](3).v))
         rec("GrandChild(z=3)", lambda: ns["GrandChild"](z=3).z)
